@@ -248,6 +248,23 @@ CHECKS["C05"] = (
     "DESIGN.md 3 (C05)",
 )
 
+CHECKS["C09"] = (
+    "Coq proof over the reals (Coquelicot derivative and Riemann integral, Rpower algebra) about hand-written density definitions whose executable "
+    "encodings denote them by construction; certified-interval (Coq-Interval reflection) certificates on the implementation's logp values, inverse-CDF "
+    "draws, K-prior sigma / log-density and ln_prior row differences",
+    "Proved: log-uniform prior on [a,b], 0<a<b: every draw exp(u ln(b/a) + ln a), 0<=u<1, lies in [a,b); the transform inverts the CDF, which rises "
+    "strictly from 0 at a to 1 at b; the derivative of the CDF is 1/(x ln(b/a)); -ln x - ln ln(b/a) is its logarithm; it integrates to 1 over [a,b]; "
+    "K prior: sigma(P,e)^2 = min(sigma_K0^2 (P/P0)^(-2/3)/(1-e^2), max_K^2), i.e. the prior the draws come from is the one the kernel marginalises "
+    "against; each executable encoding (ul_logp_rx, ul_draw_rx, fcm_sigma_rx ...) denotes the real definition. Per run Coq certifies, for supports "
+    "over 5 decades: pm.logp(UniformLog) inside / at both edges / outside (minus infinity), rng_fn driven by chosen uniform variates, the K prior's "
+    "sigma (clip active and not), its square against the kernel's rule, its log-density at (K; P, e), and that differences of the ln_prior column of "
+    "prior.sample(return_logprobs=True) between rows equal differences of the joint log-density at those rows, generate_linear off and on. "
+    "Python-level: Beta parameters = Kipping (2013), 4000 draws inside the support, KS distance (supportive).",
+    "Trusted: numpy / pymc draw from the built-in uniform, Beta, Normal they are asked for; Beta normaliser and uniform-angle constants not checked "
+    "(row differences only); float32 constants inside pytensor graphs: tolerances 2e-6 (densities, draws), 1e-5 (row differences); Coq-Interval.",
+    "DESIGN.md 3 (C09)",
+)
+
 NOT_YET = {}
 
 
